@@ -195,6 +195,8 @@ struct Run
             for (int base = 0; base < 2; ++base)
                 for (int n = 0; n <= g_nmax; ++n)
                 {
+                    // bound the number of count cells (n x NV <= 8): the distributions are enumerated completely below it
+                    if (LS::NV > 0 && static_cast<std::size_t>(n) * LS::NV > 8 && n > 1) break;
                     // all count matrices n x NV over 0..cmax
                     const std::size_t cells = static_cast<std::size_t>(n) * LS::NV;
                     std::vector<std::size_t> flat(cells, 0);
